@@ -143,7 +143,9 @@ unsafe fn level_swap<M: Manager>(
                         children
                     }
                     node => {
-                        debug_assert!(node.level() > lower_no);
+                        // Level numbers inside nodes may be outdated (they are
+                        // updated lazily), but they are unique per level.
+                        debug_assert_ne!(node.level(), upper_no_pre);
                         // The child is below the lower level, so we always have
                         // this child
                         (0..M::InnerNode::ARITY).map(|_| c.borrowed()).collect()
@@ -182,27 +184,43 @@ unsafe fn level_swap<M: Manager>(
             .collect();
 
         drop(grandchildren);
-        for child in children {
-            // Revisit the "old" children of `e`. If these are the only
-            // children, we may remove them, if they are on the old lower level.
-            // (A child might also be at some lower level, in which case the
-            // node could also be removed. However we must not access such a
-            // node.)
-            if let Node::Inner(child_node) = manager.get_node(&*child)
-                && child_node.level() == lower_no_pre
-                && child_node.ref_count() == 1
-            {
-                // The reference stems from the old `node`, whose children
-                // we replace below. Hence, we can remove child node.
-                upper.remove(child_node);
-            }
-        }
+        drop(children);
 
-        upper.insert(manager.clone_edge(e));
-        for (i, child) in new_children.into_iter().enumerate() {
+        // Replace the children first: the unique table is keyed by the
+        // children, so the node must only be (re-)inserted afterwards.
+        let old_children: SmallVec<[M::Edge; 2]> = new_children
+            .into_iter()
+            .enumerate()
             // SAFETY: we have exclusive access to all nodes at the old upper
             // level and no child is borrowed.
-            manager.drop_edge(unsafe { node.set_child(i, child) });
+            .map(|(i, child)| unsafe { node.set_child(i, child) })
+            .collect();
+        // The node stays at the (new) upper level. All other nodes there carry
+        // `lower_no_pre` as their level number, and the caller relies on a
+        // uniform numbering per level when updating the level numbers lazily.
+        // SAFETY: we have exclusive access to all nodes at the old upper level
+        unsafe { node.set_level(lower_no_pre) };
+        // SAFETY: the caller will update level numbers accordingly
+        unsafe { upper.insert_unchecked(manager.clone_edge(e)) };
+
+        for child in old_children {
+            // Revisit the "old" children of `e`. If `e` held the only
+            // references, we may remove them, if they are on the old lower
+            // level. (A child might also be at some lower level, in which case
+            // the node could also be removed. However we must not access such
+            // a node.)
+            let child_node = match manager.get_node(&child) {
+                Node::Inner(n) if n.level() == lower_no_pre => Some(n),
+                _ => None,
+            };
+            // The node is still referenced from the unique table, so this is
+            // not the last reference.
+            manager.drop_edge(child);
+            if let Some(child_node) = child_node
+                && child_node.ref_count() == 0
+            {
+                upper.remove(child_node);
+            }
         }
     }
 
